@@ -12,7 +12,7 @@ TECHNIQUE = ('explicit-state BFS over histories of runs (state = persisted DONE 
              'and which tasks fail in the next run) where every transition is itself an exhaustive preemption-bounded exploration of '
              'the thread interleavings of the real scheduler started from that state')
 RULE = ('graphs: 2-chains (hard, soft), 3-chains (hh, hs, sh), fork and join with mixed edges; run 1 from an empty environment, then up '
-        'to 2 (thorough 3) further runs; between runs every event with <= 2 lost persisted entries and <= 2 failing tasks (a failed task '
+        'to 2 (thorough 3) further runs (single changes only before the last run); between runs every event with <= 2 lost persisted entries and <= 2 failing tasks (a failed task '
         'recovers when it is not chosen again); environments carried the documented way (a fresh Env merging the DONE entries); clock '
         'either strictly increasing or coarse (3 reads per value, so that equal clocks occur); every run explored over all schedules with '
         '1 worker / 1 preemption and 2 workers / 0 preemptions (thorough: 2 workers / 1 preemption); the successor states of a history are '
@@ -94,7 +94,7 @@ def run(tier, seed):
                     evs = events(ntask)
                     if version == 1:
                         evs = [e for e in evs if not e[0]]          # nothing to lose before the first run
-                    elif tier == 'quick' and version == nruns:
+                    elif version == nruns:      # last level: single changes only (quick and thorough)
                         evs = [e for e in evs if len(e[0]) + len(e[1]) <= 1]
                     for event in evs:
                         jobs.append((gname, carried, clock0, version, event, plans, coarse))
